@@ -273,6 +273,13 @@ def run(check):
                     'documented -1 / resolution normalisations touch the timestamp)')
   rule_normalisation(check, cx, r_ap)
 
+  # ------------------------------------------------------------------ nothing taken from the queue is dropped before it is encoded
+  from ..clientmodel import ClientModel
+  from .c07 import rule_sent
+  r_sn = check.rule('R-C15-sent', 3, 'every batch taken from the send queue reaches the encoder whole (shared with C07): splitting into '
+                    'messages never drops datapoints')
+  rule_sent(check, cx, ClientModel(cx), r_sn)
+
   # ------------------------------------------------------------------ batches
   r_b = check.rule('R-C15-batch', 2, 'batches are popped from the left, at most MAX_DATAPOINTS_PER_MESSAGE, never merged or reordered')
   tq = cx.fn('carbon.client', 'CarbonClientFactory.takeSomeFromQueue')
